@@ -11,6 +11,7 @@ import DL.Model.Scope2Json
 import DL.Model.FixBuild
 import DL.Model.Txt
 import DL.Model.VmsJson
+import DL.Model.FixSmall
 
 /-! `dlmodel`: one JSON request per line on stdin, one JSON answer per line on stdout. -/
 open Lean (Json)
@@ -189,6 +190,21 @@ def dispatch (j : Json) : Except String Json := do
     let t ← getStr j "t"
     pure (Json.mkObj [("hits", Json.arr ((DL.Txt.preferAscii t.toList).map (fun h => Json.arr #[(h.start : Json), (h.stop : Json)])).toArray)])
   | "vms" => DL.Vms.runVms j
+  | "ent" => do
+    let t ← getStr j "t"
+    let e := DL.FixSmall.escape t.toList
+    pure (Json.mkObj [("reported", DL.FixSmall.entReported t.toList),
+      ("fixed", if DL.FixSmall.entReported t.toList then Json.str (String.ofList e) else Json.null)])
+  | "spread" => do
+    let attrs ← (← getArr j "attrs").toList.mapM fun a => match a with
+      | .null => pure (none : DL.FixSmall.Attr)
+      | a => do pure (some (← a.getStr?).toList)
+    let attrs' := match getOpt j "fix" with
+      | some v => match v.getNat? with
+        | .ok i => DL.FixSmall.spreadFix attrs i
+        | .error _ => attrs
+      | none => attrs
+    pure (Json.mkObj [("reported", Json.arr ((DL.FixSmall.spreadReported attrs').map (fun (n : Nat) => (n : Json))).toArray)])
   | "fixb" => do
     let v ← getStr j "v"
     pure (Json.mkObj [("text", match DL.FixBuild.jsxAttrQuote v.toList with
